@@ -9,7 +9,7 @@
     of processBatch clamps the trimmed length at 0) applied.  [shift_cache_slot_pinned] keeps the pinned
     behaviour, to state what the repair changed. *)
 From Coq Require Import List ZArith NArith Bool Arith.
-From V Require Import Common.Bytes Runner.Stop.
+From V Require Import Common.Bytes Slots.StopFns.
 Import ListNotations.
 Open Scope Z_scope.
 
@@ -234,10 +234,11 @@ Record seqst := mkSeq {
 }.
 
 Inductive reason := DoneStop | DoneLength.
-(** ghost event log: a request is accepted with its inputs after truncation and its normalised keep count; a token
+(** ghost event log: a request is accepted with its inputs after truncation, its normalised keep count, its numPredict
+    and stop sequences; a token
     is sampled for it from the history [vis] the cache exposed to the batch entry that produced the logits *)
 Inductive event :=
-| EvSubmit (req : nat) (w0 : list tok) (keep : Z)
+| EvSubmit (req : nat) (w0 : list tok) (keep : Z) (npredict : Z) (stops : list str)
 | EvSample (req : nat) (t : tok) (vis : list (Z * tok))
 | EvDone (req : nat) (r : reason).
 
@@ -301,7 +302,7 @@ Definition submit (cfg : config) (st : state) (prompt : list tok) (npredict keep
           | Panic => (st, RPanic)
           | Ok (sl, kv', si, rest) =>
               (mkSt sl kv' (set_nth (seqs st) idx (Some (mkSeq rest [] si npredict 0 keep' [] stops O (nreq st))))
-                    (nextSeq st) (S (clock st)) (S (nreq st)) (log st ++ [EvSubmit (nreq st) inputs keep']),
+                    (nextSeq st) (S (clock st)) (S (nreq st)) (log st ++ [EvSubmit (nreq st) inputs keep' npredict stops]),
                RSubmitted idx)
           end
       end
